@@ -422,6 +422,20 @@ def main(argv):
                 coq_bad.append((name, ncases[i:i + per], o[-600:]))
         ck.oblige("Coq-Interval certifies integrate_cold (generated) within 2e-7 of the implementation on %d points" % len(ncases), not coq_bad)
 
+    # 5b. fixed probes at the two known limits of the default quadrature / of the closed forms (DESIGN 0.5, known_findings.json): each is
+    #     reported under its own key, so a listed one prints KNOWN-FINDING and any other violation is still reported as such
+    probes = [("narrow-gaussian:0.19:0.005:cos(theta/a)**2:pi:1", ["gauss", 0.19, 0.005], "cos(theta/a)**2", math.pi, 1.0),
+              ("narrow-gaussian:0.77:0.003:sin(theta/a):pi:1", ["gauss", 0.77, 0.003], "sin(theta/a)", math.pi, 1.0),
+              ("subnormal-theta:cos(theta/a)**2:5e-324:7.3", ["const"], "cos(theta/a)**2", 5e-324, 7.3)]
+    for pkey, spec, key, th, a in probes:
+        ck.count("known_limit_probes", 1, key=pkey)
+        try:
+            why, det = oracle_one(spec, key, th, a)
+        except Exception as e:  # noqa
+            why, det = "probe raised %s: %s" % (type(e).__name__, e), {"pulse": spec, "key": key, "theta": th, "a": a}
+        if why:
+            ck.report("oracle:" + pkey, "Integrator(%s).integrate(%r, %r, %r): %s" % (spec, key, th, a, why), det, True)
+
     # 6. reporting
     if failures:
         seen = set()
